@@ -613,14 +613,23 @@ func TestVerif_C19_Envelope(t *testing.T) {
 		tr.MaxIdleConnsPerHost = 64
 	}
 	n := m.N(6000, 200000)
-	m.Require("evaluations", int64(n))
-	m.Require("loopback_client_success", int64(n/20))
-	m.Require("loopback_client_error_reported", int64(n/20))
-	m.Require("jsonp_wrapped_ok", int64(n/20))
-	m.Require("coded_error_code_ok", int64(n/10))
-	m.Require("plain_error_status_ok", int64(n/20))
-	m.Require("unmarshalable_answered_with_error_status", int64(n/50))
-	m.Require("badutf8_values", int64(n/50))
+	only := -1 // under `check.py --replay`: the recorded case only, no mandatory minimums
+	if v, ok := m.ReplayField("case").(float64); ok {
+		only = int(v)
+	}
+	require := func(name string, min int64) {
+		if only == -1 {
+			m.Require(name, min)
+		}
+	}
+	require("evaluations", int64(n))
+	require("loopback_client_success", int64(n/20))
+	require("loopback_client_error_reported", int64(n/20))
+	require("jsonp_wrapped_ok", int64(n/20))
+	require("coded_error_code_ok", int64(n/10))
+	require("plain_error_status_ok", int64(n/20))
+	require("unmarshalable_answered_with_error_status", int64(n/50))
+	require("badutf8_values", int64(n/50))
 
 	var cases sync.Map
 	var loopViol sync.Map
@@ -652,6 +661,9 @@ func TestVerif_C19_Envelope(t *testing.T) {
 		}
 		mon.Parallel(hi-lo, func(w, k int) {
 			i := lo + k
+			if only != -1 && i != only {
+				return
+			}
 			r := m.Rand("case", i)
 			c := genCase(r, i)
 			loop := i%2 == 0
